@@ -839,18 +839,21 @@ class TextXMetaModel(DebugPrinter):
                     m for m in get_included_models(model) if id(m) not in cached_ids
                 ]
 
-        try:
-            for p in self._model_processors:
-                p(model, self)
-        except:  # noqa
-            if loaded_models:
-                # A model processor failed on a freshly loaded main model.
-                # As for any other failing load, the models loaded by it must
-                # not stay cached in the (global) repositories.
-                from textx.scoping import remove_models_from_repositories
+            # Model processors are called once per loaded model. A model
+            # found in the global repository has been processed when it was
+            # loaded.
+            try:
+                for p in self._model_processors:
+                    p(model, self)
+            except:  # noqa
+                if loaded_models:
+                    # A model processor failed on a freshly loaded main
+                    # model. As for any other failing load, the models loaded
+                    # by it must not stay cached in the (global) repositories.
+                    from textx.scoping import remove_models_from_repositories
 
-                remove_models_from_repositories(loaded_models, loaded_models)
-            raise
+                    remove_models_from_repositories(loaded_models, loaded_models)
+                raise
 
         return model
 
